@@ -218,7 +218,7 @@ func (C02) Execute(t *testing.T, sc *core.Scenario) *core.Result {
 			}
 			base := filepath.Base(c.Path)
 			// temp-file creation happens under the process-wide temp file provider's mutex
-			if op == "create" && (strings.HasPrefix(base, "nbs_manifest_") || strings.HasPrefix(base, "nbs_table_")) {
+			if op == "create" && (strings.HasPrefix(base, "nbs_manifest_") || strings.HasPrefix(base, "nbs_table_") || strings.HasPrefix(c.Path, "tmp/")) {
 				return
 			}
 			s.YieldHere(op + ":" + fileClass(c.Path, c.Path2))
